@@ -33,6 +33,7 @@ type NodeSpec struct {
 	Kind  string             `json:"kind,omitempty"`
 	Ord   int                `json:"ord,omitempty"`
 	Tags  map[string]TagSpec `json:"tags,omitempty"`
+	Cfg   map[string]TagSpec `json:"cfg,omitempty"` // CfgS/CfgI/CfgL -> value/prefix tag
 	Fails []string           `json:"fails,omitempty"`
 }
 
@@ -74,21 +75,22 @@ type Options struct {
 
 // Run is one start of the real container on a scenario, with everything the monitors saw.
 type Run struct {
-	Sc      *Scenario
-	Nodes   []Node
-	App     *app.App
-	Log     *mon.Lifecycle
-	Tracer  *mon.RegistryTracer
-	Perm    *mon.DefPermuter
-	Pop     *mon.PopRegistry
-	Binder  *mon.Binder
-	Tagger  *Tagger
-	Err     error
-	Panic   any
-	Stack   string
-	Diverge *mon.Divergence
-	index   map[any]int // population identity -> index in Pop.Pop
-	ops     []app.SettingOption
+	Sc        *Scenario
+	Nodes     []Node
+	App       *app.App
+	Log       *mon.Lifecycle
+	Tracer    *mon.RegistryTracer
+	Perm      *mon.DefPermuter
+	Pop       *mon.PopRegistry
+	Binder    *mon.Binder
+	Tagger    *Tagger
+	CfgTagger *CfgTagger
+	Err       error
+	Panic     any
+	Stack     string
+	Diverge   *mon.Divergence
+	index     map[any]int // population identity -> index in Pop.Pop
+	ops       []app.SettingOption
 }
 
 // Tagger is the harness-supplied definition scanner: it supplies the tag of every slot per
@@ -102,9 +104,16 @@ type Tagger struct {
 
 func (t *Tagger) Naming() string { return "verif.tagger" }
 
-func newTagger() *Tagger {
-	t := &Tagger{tags: map[any]map[string]TagSpec{}}
-	t.NodeType = component_definition.PropertyTypeComponent
+// CfgTagger is the same mechanism for configuration properties (value / prefix tags).
+type CfgTagger struct{ Tagger }
+
+func (t *CfgTagger) Naming() string { return "verif.cfgtagger" }
+
+func newTagger() *Tagger { return initTagger(&Tagger{}, component_definition.PropertyTypeComponent) }
+
+func initTagger(t *Tagger, nodeType component_definition.PropertyType) *Tagger {
+	t.tags = map[any]map[string]TagSpec{}
+	t.NodeType = nodeType
 	t.Required = true
 	t.ExtractHandler = func(meta *component_definition.Meta, field *component_definition.Field) (string, string, bool) {
 		t.mu.Lock()
@@ -144,6 +153,13 @@ func Build(sc *Scenario, opt Options) *Run {
 		r.Nodes = append(r.Nodes, n)
 		if len(ns.Tags) > 0 {
 			r.Tagger.tags[n] = ns.Tags
+		}
+		if len(ns.Cfg) > 0 {
+			if r.CfgTagger == nil {
+				r.CfgTagger = &CfgTagger{}
+				initTagger(&r.CfgTagger.Tagger, component_definition.PropertyTypeConfiguration)
+			}
+			r.CfgTagger.tags[n] = ns.Cfg
 		}
 	}
 	a := app.NewApp()
@@ -186,6 +202,9 @@ func Build(sc *Scenario, opt Options) *Run {
 	ops = append(ops, app.SetConfigLoader(loaders...))
 	var comps []any
 	comps = append(comps, r.Tagger)
+	if r.CfgTagger != nil {
+		comps = append(comps, r.CfgTagger)
+	}
 	if !opt.NoObserver {
 		comps = append(comps, &Observer{run: r})
 	}
@@ -201,6 +220,11 @@ func Build(sc *Scenario, opt Options) *Run {
 		comps = append(comps, r.Nodes[i])
 	}
 	comps = append(comps, opt.Extra...)
+	for _, x := range comps {
+		if b, ok := x.(Binder); ok {
+			b.Bind(r)
+		}
+	}
 	ops = append(ops, app.SetComponents(comps...))
 	ops = append(ops, opt.AppOptions...)
 	r.ops = ops
@@ -304,6 +328,9 @@ func SnapshotOf(c any) map[string]string {
 		} else {
 			snap[si.Name] = fmt.Sprintf("%p", f.Interface())
 		}
+	}
+	for _, cf := range CfgFields {
+		snap[cf] = fmt.Sprintf("%#v", sv.FieldByName(cf).Interface())
 	}
 	return snap
 }
